@@ -90,3 +90,31 @@ func walkCheckBudget(prop string, sigPrefixes []string, quickBound, thoroughBoun
 		})
 	}
 }
+
+// poolCheck: the real TaskWorkerPool alone (callers x workers x stop mode) under every schedule with a
+// bounded number of deviations; a small driver, so that higher bounds complete than with the Walker on top.
+func poolCheck(c *Ctx, prop string, sigPrefixes []string) {
+	ov := schedOverlay(c, "sched-pool", []string{"internal/worker/task_worker_pool.go"}, []string{"pool"})
+	if ov == nil {
+		return
+	}
+	bin, err := vc.BuildHarnessTest("pool", ov, "pool", false)
+	if err != nil {
+		c.R.BrokenCheck("%v", err)
+		return
+	}
+	bound, budget := "3", "25"
+	if c.Thorough {
+		bound, budget = "4", "240"
+	}
+	sub := vc.NewReport(prop, c.Tier)
+	vc.RunHarnessShards(sub, vc.HarnessRun{Bin: bin, Env: map[string]string{"VERIF_TIER": c.Tier, "VERIF_BOUND": bound, "VERIF_BUDGET_S": budget, "GOMAXPROCS": "1"}, Tag: "pool-" + prop}, 16, 16)
+	c.R.Merge(sub, func(sig string) bool {
+		for _, p := range sigPrefixes {
+			if strings.HasPrefix(sig, p) {
+				return true
+			}
+		}
+		return false
+	})
+}
